@@ -459,3 +459,119 @@ Proof.
   split; [split; [reflexivity|intros row [<-|[<-|[<-|[]]]]; reflexivity]|].
   repeat split; vm_compute; reflexivity.
 Qed.
+
+(* =====================================================================================================================
+   SECOND SOURCE TIE (notes/C02_tie_report.md, section "Second tie"): `minimum_error_rate_loss`.  The statements below are
+   about the Python text of src/pydrobert/torch/_string.py::minimum_error_rate_loss as translated to MiniPy terms on every
+   run (PV.Gen.C02BSrc.mer_body = the whole body; mer_pre / mer_tail = its two consecutive blocks; unit C02BSrc) and
+   interpreted by PV.MiniPy.Interp under C02.SrcRunB.extB: the torch calls mean what PV.MiniTorch.OpsC02B (repeat, size,
+   mean, sum, the slice of a shape tuple), OpsC07.view (reshape / view) and the operations of the first tie say; the call
+   `error_rate(ref, hyp, eos=.., ..)` is the run of the OTHER translated function (Gen.C02Src.er_wrap, which runs the
+   translated _string_matching), tied above; `torch.nn.functional.softmax(log_probs, 1)` is an ORACLE whose values are
+   the data w (N rows of M weights, as for Model.mer_loss) - the contents [lpd] of log_probs are arbitrary.
+   [C02.TieB.run_mer w s c sub_avg red N M R H lpd ref hyp warn] = the interpreted call on log_probs (N x M), ref = a
+   2-D (inl: N x R | R x N) or 3-D (inr: N x M x R | R x N x M) tensor, hyp (N x M x H | H x N x M), costs c / s,
+   reduction red.  Hypotheses: what the tensors ARE ([wf_ref_src], [wf3_src], [wf_w]), 0 < N, and NON-ZERO WIDTHS R, H:
+   with a zero width `ref.reshape(-1, 0)` / `hyp.reshape(0, -1)` raises in torch (OpsC07.view: None), a case outside
+   the input space of the property's correspondence.
+   ===================================================================================================================== *)
+From PV Require C02.SrcRunB C02.TieBMath C02.TieB.
+
+(* THE WHOLE BODY, M >= 2: every statement of minimum_error_rate_loss - the rank checks, the sizes from hyp.shape, the
+   expansion of a 2-D reference (unsqueeze + repeat) in both layouts, the shape checks, the flattening of ref and hyp,
+   the call of error_rate, .view(batch_size, samples), the mean subtraction, the product with the softmax, the reduction -
+   returns the tensor of Model.mer_loss ([mres_tensor]: MMat rows as the (N, M) tensor of the rationals in lowest terms,
+   MScalar q as the 0-dimensional tensor), for 2-D and 3-D references, sub_avg and the three reductions *)
+Theorem c02_source_mer_loss_is_model :
+  forall (w : list (list Q)) (s : positive) (c : cfg) (sub_avg : bool) (red : reduction) (N M R H : nat)
+         (lpd : list MiniTorch.OpsC01.fx) (ref : list (list Z) + list (list (list Z))) (hyp : list (list (list Z))) (warn : bool),
+  (0 < N)%nat -> (2 <= M)%nat -> R <> 0%nat -> H <> 0%nat ->
+  C02.TieB.wf_ref_src (c_bf c) N M R ref -> C02.TieB.wf3_src (c_bf c) N M H hyp -> wf_w N M w ->
+  exists st', C02.TieB.run_mer w s c sub_avg red N M R H lpd ref hyp warn
+              = MiniPy.Interp.Ok
+                  (MiniTorch.OpsC01.enc_x (C02.TieBMath.mres_tensor N M (mer_loss c sub_avg red N M w ref hyp))) st'.
+Proof. exact C02.TieB.mer_is_model. Qed.
+Print Assumptions c02_source_mer_loss_is_model.
+
+(* the same for the two blocks mer_pre; mer_tail run in sequence *)
+Theorem c02_source_mer_loss_blocks_is_model :
+  forall (w : list (list Q)) (s : positive) (c : cfg) (sub_avg : bool) (red : reduction) (N M R H : nat)
+         (lpd : list MiniTorch.OpsC01.fx) (ref : list (list Z) + list (list (list Z))) (hyp : list (list (list Z))) (warn : bool),
+  (0 < N)%nat -> (2 <= M)%nat -> R <> 0%nat -> H <> 0%nat ->
+  C02.TieB.wf_ref_src (c_bf c) N M R ref -> C02.TieB.wf3_src (c_bf c) N M H hyp -> wf_w N M w ->
+  exists st', C02.TieB.run_mer_blocks w s c sub_avg red N M R H lpd ref hyp warn
+              = MiniPy.Interp.Ok
+                  (MiniTorch.OpsC01.enc_x (C02.TieBMath.mres_tensor N M (mer_loss c sub_avg red N M w ref hyp))) st'.
+Proof. exact C02.TieB.mer_blocks_is_model. Qed.
+Print Assumptions c02_source_mer_loss_blocks_is_model.
+
+(* THE RAISE PATH: fewer than two samples (M = 0 or 1, any N) - the interpreted source raises RuntimeError (after the
+   flattening, at "if samples < 2"), exactly when Model.mer_loss is MErr *)
+Theorem c02_source_mer_loss_too_few_samples :
+  forall (w : list (list Q)) (s : positive) (c : cfg) (sub_avg : bool) (red : reduction) (N M R H : nat)
+         (lpd : list MiniTorch.OpsC01.fx) (ref : list (list Z) + list (list (list Z))) (hyp : list (list (list Z))) (warn : bool),
+  (M < 2)%nat -> R <> 0%nat -> H <> 0%nat ->
+  C02.TieB.wf_ref_src (c_bf c) N M R ref -> C02.TieB.wf3_src (c_bf c) N M H hyp ->
+  (exists st', C02.TieB.run_mer w s c sub_avg red N M R H lpd ref hyp warn = MiniPy.Interp.Exc C01.SrcRun.runtime_error st') /\
+  (exists st', C02.TieB.run_mer_blocks w s c sub_avg red N M R H lpd ref hyp warn = MiniPy.Interp.Exc C01.SrcRun.runtime_error st') /\
+  mer_loss c sub_avg red N M w ref hyp = MErr.
+Proof. exact C02.TieB.mer_raises. Qed.
+Print Assumptions c02_source_mer_loss_too_few_samples.
+
+(* composed with c02_mer_loss_formula and c02_mer_er_allowed - a statement purely about the interpreted source: with
+   reduction = "none" entry (n, m) of the returned (N, M) tensor is  (er[n,m] - mean_m' er[n,m']) * w[n,m]  (er[n,m] * w[n,m]
+   when sub_avg is off), in lowest terms, where every er[n,m] is an error rate the property admits for sample m of batch
+   element n against its reference (row n of a 2-D ref / entry (n, m) of a 3-D one; both cut at the first eos): the edit
+   count of a minimum-cost alignment, normalised with the empty-reference rule when norm is on.  So the flattening n*M + m,
+   the expansion of a 2-D reference and .view(N, M) line up in both layouts - in the source text *)
+Theorem c02_source_mer_loss_entries :
+  forall (w : list (list Q)) (s : positive) (c : cfg) (sub_avg : bool) (N M R H : nat)
+         (lpd : list MiniTorch.OpsC01.fx) (ref : list (list Z) + list (list (list Z))) (hyp : list (list (list Z))) (warn : bool),
+  (0 < N)%nat -> (2 <= M)%nat -> R <> 0%nat -> H <> 0%nat ->
+  C02.TieB.wf_ref_src (c_bf c) N M R ref -> C02.TieB.wf3_src (c_bf c) N M H hyp -> wf_w N M w ->
+  exists (er : nat -> nat -> Q) out st',
+    C02.TieB.run_mer w s c sub_avg RNone N M R H lpd ref hyp warn
+    = MiniPy.Interp.Ok (MiniTorch.OpsC01.enc_x (MiniTorch.OpsC07.mkTn [N; M] out)) st' /\
+    length out = (N * M)%nat /\
+    (forall n m, (n < N)%nat -> (m < M)%nat ->
+       let mean := (qsum (map (er n) (seq 0 M)) / (Z.of_nat M # 1))%Q in
+       nth (n * M + m) out MiniTorch.OpsC01.FNaN
+       = C02.SrcRunB.qfx ((if sub_avg then er n m - mean else er n m) * nth m (nth n w []) 0)%Q) /\
+    (forall n m,
+       exists v, er n m = val_q v /\
+         spec_er_val (c_norm c) (c_ins c) (c_del c) (c_sub c)
+           (denote (c_eos c) (c_incl c) (ref_seq (c_bf c) n m ref))
+           (denote (c_eos c) (c_incl c) (seq3_of (c_bf c) n m hyp)) v).
+Proof. exact C02.TieB.mer_loss_entries. Qed.
+Print Assumptions c02_source_mer_loss_entries.
+
+(* non-vacuity: the loss example of c02_nonvacuous (batch-first, 2-D reference, eos = 9, costs 3/4, 1/4, 1, norm, sub_avg)
+   and a time-major 3-D one meet the hypotheses; the interpreted source - whole body and blocks, as the harness runs them
+   (SrcRunB.src_mer) - returns ((1 - 1/2) * 1/4, (0 - 1/2) * 3/4) = (1/8, -3/8), resp. the mean 1/4 * 1/4 + 1/2 * 3/8 ... of
+   Model.mer_loss; with one sample it raises *)
+Example c02_source_mer_nonvacuous :
+  let c := mkCfg (Some 9) false true true 3 1 4 0 false in
+  let c' := mkCfg (Some 9) false true false 3 1 4 0 false in
+  let w := [[1 # 4; 3 # 4]] in
+  let ref := inl [[1; 1; 2; 9]] in
+  let hyp := [[[2; 1; 9]; [1; 1; 2]]] in
+  let ref' := inr [[[1; 1]]; [[1; 2]]; [[2; 9]]; [[9; 9]]] in
+  let hyp' := [[[2; 1]]; [[1; 1]]; [[9; 2]]] in
+  C02.TieB.wf_ref_src (c_bf c) 1 2 4 ref /\ C02.TieB.wf3_src (c_bf c) 1 2 3 hyp /\ wf_w 1 2 w /\
+  C02.TieB.wf_ref_src (c_bf c') 1 2 4 ref' /\ C02.TieB.wf3_src (c_bf c') 1 2 3 hyp' /\
+  mer_loss c true RNone 1 2 w ref hyp = MMat [[27 # 216; -81 # 216]] /\
+  C02.SrcRunB.src_mer Gen.C02BSrc.mer_body c 4 true RNone 1 2 w ref hyp = Some (MMat [[1 # 8; -3 # 8]]) /\
+  C02.SrcRunB.src_mer C02.SrcRunB.mer_blocks c 4 true RNone 1 2 w ref hyp = Some (MMat [[1 # 8; -3 # 8]]) /\
+  C02.SrcRunB.src_mer Gen.C02BSrc.mer_body c' 4 false RNone 1 2 w ref' hyp' = Some (MMat [[1 # 4; 3 # 8]]) /\
+  C02.SrcRunB.src_mer Gen.C02BSrc.mer_body c' 4 false RSum 1 2 w ref' hyp' = Some (MScalar (5 # 8)) /\
+  C02.SrcRunB.src_mer Gen.C02BSrc.mer_body c' 4 false RNone 1 1 [[1 # 4]] (inr [[[1]]; [[1]]; [[2]]; [[9]]]) [[[2]]; [[1]]; [[9]]]
+    = Some MErr.
+Proof.
+  cbv zeta.
+  split; [split; [reflexivity|intros row [<-|[]]; reflexivity]|].
+  split; [split; [reflexivity|intros row [<-|[]]; split; [reflexivity|intros r [<-|[<-|[]]]; reflexivity]]|].
+  split; [split; [reflexivity|intros row [<-|[]]; reflexivity]|].
+  split; [split; [reflexivity|intros pl [<-|[<-|[<-|[<-|[]]]]]; (split; [reflexivity|intros r [<-|[]]; reflexivity])]|].
+  split; [split; [reflexivity|intros pl [<-|[<-|[<-|[]]]]; (split; [reflexivity|intros r [<-|[]]; reflexivity])]|].
+  repeat split; vm_compute; reflexivity.
+Qed.
